@@ -152,7 +152,7 @@ Proof.
   pose proof (html_inv_step d l ty tk l' Hi Hs) as Hi'.
   pose proof (step_len _ _ _ _ Hl Hs) as Hll.
   pose proof Hs as Hs2. cbn [step_post] in Hs2.
-  destruct Hs2 as (_ & _ & _ & Hpos & Htk & _ & _ & _ & He1 & He2).
+  destruct Hs2 as (_ & _ & _ & Hpos & Htk & _ & _ & _ & He1 & He2 & _).
   destruct tk as [v|]; [lia|]. destruct Htk as [-> _].
   exists l'. split; [exact E|]. split; [exact Hi'|]. split; [lia|].
   unfold err_kind, at_end. rewrite Hll.
@@ -346,7 +346,7 @@ Proof.
   pose proof (html_inv_step d l ty tk l' Hi Hs) as Hi'.
   pose proof Hi as ((Hw & _) & Hlen & Hsuf & _).
   pose proof (lx_wf_len _ Hw) as [Hbl _]. assert (H0 : 0 <= lpos (lz l)) by (destruct Hw as (_ & ? & _); lia).
-  cbn [step_post] in Hs. destruct Hs as (_ & _ & (w & Hb & W1 & W2 & W3 & Wr) & Hpos & Htk & _ & _ & _ & _ & He2).
+  cbn [step_post] in Hs. destruct Hs as (_ & _ & (w & Hb & W1 & W2 & W3 & Wr) & Hpos & Htk & _ & _ & _ & _ & He2 & _).
   rewrite Hlen in *.
   destruct tk as [v|].
   - destruct Htk as (T0 & T1 & T2 & T3 & T4 & T5 & T6 & _).
